@@ -180,6 +180,21 @@ fn gen(rng: &mut Rng, tier: &str) -> Vec<(String, Value)> {
         let kill = rng.range(1, bound);
         cases.push(("random.kill".to_string(), case24(std::slice::from_ref(&h), steps, Some((t, kill)), (10, 10, rng.chance(1, 6)))));
     }
+    // malformed (outside the premise, correspondence only): the killed run is served a delta file with other
+    // content than announced; F21: the honest delta of the next run applies on top of what the kill left
+    // (check_case answers 3 for them, which ./check only accepts once known_findings.json lists F21 for C24)
+    let f21_listed = std::fs::read_to_string(concat!(env!("CARGO_MANIFEST_DIR"), "/../known_findings.json"))
+        .map(|s| s.contains("\"C24\"") && s.contains("\"F21\"")).unwrap_or(false);
+    if f21_listed || std::env::var("C24_WITH_F21").is_ok() {
+        let h = &hists[0];
+        let hs = std::slice::from_ref(h);
+        for n in 1..=3u64 {
+            let mut s = pin(&h.honest_step(1, 5));
+            s["files"][1]["doc"]["els"] = json!([["p", 2, 0]]);
+            cases.push(("malformed.kill_during_wrong_delta".to_string(),
+                case24(hs, vec![h.honest_step(0, 5), s, h.honest_step(1, 5), h.honest_step(4, 5)], Some((1, n)), (10, 10, false))));
+        }
+    }
     // no kill at all: the conditional 304 and the honest server without crashes
     for h in hists.iter().take(if thorough { hists.len() } else { 3 }) {
         let last = h.versions.len() - 1;
